@@ -39,6 +39,8 @@ TRANSPARENT = {
     "<alloc::vec::Vec<T, A> as core::ops::deref::Deref>::deref",
     "<alloc::string::String as core::ops::deref::Deref>::deref",
     "alloc::vec::Vec::<T, A>::as_slice",
+    "<alloc::vec::Vec<T, A> as core::convert::AsRef<[T]>>::as_ref",
+    "<[T] as core::convert::AsRef<[T]>>::as_ref",
     "alloc::string::String::as_str",
     "core::str::<impl str>::as_bytes",
     # the string itself and its suffixes
